@@ -331,9 +331,10 @@ class Arbiter(object):
             s = self.get_socket(n)
             s.close()
             # Get the watchers whichs use these, these should not be
-            # active anymore
+            # active anymore (a changed socket comes back under its name)
             for w in self.iter_watchers():
-                if 'circus.sockets.%s' % n.lower() in w.cmd:
+                if n not in added_sn and \
+                        'circus.sockets.%s' % n.lower() in w.cmd:
                     wn_with_deleted_socket.add(w.name)
             del self.sockets[s.name]
 
@@ -358,14 +359,15 @@ class Arbiter(object):
         current_wn = set([i.name for i in self.iter_watchers()]) - ignore_wn
         new_wn = set([i['name'] for i in new_cfg.get('watchers', [])])
         new_wn = new_wn | set([i['name'] for i in new_cfg.get('plugins', [])])
-        added_wn = (new_wn - current_wn) | wn_with_changed_socket
-        deleted_wn = current_wn - new_wn - wn_with_changed_socket
+        # watchers of a changed socket are deleted and added again
+        added_wn = (new_wn - current_wn) | (wn_with_changed_socket & new_wn)
+        deleted_wn = (current_wn - new_wn) | wn_with_changed_socket
         maybechanged_wn = current_wn - deleted_wn
         changed_wn = set([])
 
-        if wn_with_deleted_socket and wn_with_deleted_socket not in new_wn:
+        if wn_with_deleted_socket & new_wn:
             raise ValueError('Watchers %s uses a socket which is deleted' %
-                             wn_with_deleted_socket)
+                             (wn_with_deleted_socket & new_wn))
 
         # get changed watchers
         for n in maybechanged_wn:
